@@ -25,7 +25,9 @@ KEY = {1: "reject/bracketed-anytrait", 2: "accept/outside-documented-language", 
        13: "cache/answer-changes-between-calls", 14: "entry-points/parse-and-compile_str-disagree",
        15: "removal/registered-by-one-spelling-not-removable-by-the-other",
        16: "hooks/handler-fires-for-other-traits-than-documented",
-       17: "hooks/observe-raises-or-not-unlike-documented"}
+       17: "hooks/observe-raises-or-not-unlike-documented",
+       18: "compile-error/repeated-alternative-without-connector",
+       19: "compile-error/repeated-alternative-not-after-a-connector"}
 _W = re.compile(r"\w")
 
 
@@ -425,9 +427,10 @@ def describe(case, ob, code):
     which = 2 if 20 < code < 40 else 1
     clause = code - 20 if 20 < code < 40 else code
     if case["kind"] == "hook":
-        return "text %r registered on the probe objects: %s (fired for %r; 16*object + index; objects 0 root, 1 child, " \
+        return "text %r registered on the probe objects: %s (fired for %r; 32*object + index, 1000 + code = reported for a replaced object; objects 0 root, 1 child, " \
                "2 kids list, 3-4 its items, 5 table dict, 6 its value, 7 group set, 8 its item; index 0-7 t_true t_false t_zero " \
-               "t_empty t_tuple t_none t_absent t_other, 8 child, 9 the container itself, 10 kids, 11 table, 12 group)" % (
+               "t_empty t_tuple t_none t_absent t_other, 8 child, 9 the container itself, 10 kids, 11 table, 12 group, 13 trait_added, " \
+               "14 trait_modified, 16 zz_new)" % (
                    case["s"], KEY.get(clause, clause), ob.get("fired"))
     if case["kind"] == "expr":
         return "expression %s built through the API (style %d): %s (compile_expr: %s)" % (
@@ -505,6 +508,11 @@ def run_cases(ctx, cases, tag, relation):
         law_idx.add(i)
         clause = code - 20 if 20 < code < 40 else code
         key = KEY.get(clause, "clause%d" % clause)
+        if clause == 3:
+            # the listed finding is the uniqueness check of ObserverGraph.__init__; any other refusal gets its own key
+            o = obs[i] if cases[i]["kind"] != "pair" else (obs[i]["o2"] if 20 < code < 40 else obs[i]["o1"])
+            if o.get("msg") == "other":
+                key = "compile-error/repeated-alternative-after-connector/other-message"
         if key in seen:
             continue
         seen.add(key)
